@@ -92,6 +92,15 @@ BUILT = {
             "after asm_set_offset must give the same return value, offset, bytes and count as on a fresh instance",
             "user-visible settings = last value per option dimension + last asm_set_chunk_size",
             "DESIGN.md section 6, C15"),
+    "C08": ("model_checking",
+            "exhaustive enumeration of program lengths around every growth threshold x call splittings x assemble modes x "
+            "{natural, forced-move} mremap on the real API (libc interposed with -Wl,--wrap), compared step by step with the "
+            "same calls on a large caller buffer; generated code is executed",
+            "every total length within +-40 bytes of 1x/2x/3x the growth quantum and a lattice of other lengths; one call, "
+            "two calls split at every line near each threshold, one call per line near it; plain / fitting / counting; "
+            "the mapping is also forced to move on every growth so that a stale pointer faults",
+            "mremap is made to move via MREMAP_FIXED (legal under MREMAP_MAYMOVE); code runs in a child after the byte "
+            "comparison", "DESIGN.md section 6, C08"),
     "C10": ("model_checking",
             "bounded-exhaustive enumeration of malformed inputs on the real assembler: every named mnemonic x all 781 "
             "operand-kind tuples, every single-character mutation of register names in 5 positions, invalid scales, "
@@ -117,6 +126,24 @@ BUILT = {
             "STRICT mov-immediate modes only (the documented SMART exception is C11's)",
             "rewritings are applied to lines rendered by the check itself (known token structure); tabs only next to an "
             "existing separator", "DESIGN.md section 6, C16"),
+    "C17": ("fault_enumeration",
+            "exhaustive fault enumeration: every single (quick) and every ordered pair (thorough) of refused libc calls "
+            "(malloc mmap mremap munmap open fstat close fopen fwrite fclose, interposed with -Wl,--wrap) along 5 API "
+            "scenarios, each run in a forked child",
+            "each library-side libc call of each scenario is refused in turn (and in pairs, including calls that only "
+            "appear on error paths), plus short-write variants of fwrite; the API call in progress must return its "
+            "documented failure value, earlier code must stay intact, the instance destroyable, and asm_create_bin_file may "
+            "report success only if the file holds exactly code[0, offset)",
+            "a refusal is NULL / MAP_FAILED / -1 / short count with errno set; for refused munmap/close/fclose only survival "
+            "is demanded", "DESIGN.md section 6, C17"),
+    "C19": ("model_checking",
+            "exhaustive enumeration of file sizes (0..64 and +-8 around 1, 2, 3 pages) x 4 endings x both file entry points "
+            "on the real API with text buffers placed flush against a PROT_NONE page, compared with the string entry points "
+            "on the same contents; bad paths; binary output at 6 offsets read back",
+            "return value, offset, bytes and count of asm_assemble_file / _counting_chunks must equal those of the string "
+            "calls; a read past the end of the text faults deterministically",
+            "file contents are valid programs of nop / comment filler; permission-based unreadable files not covered (may "
+            "run as root)", "DESIGN.md section 6, C19"),
     "C12": ("model_checking",
             "explicit-state BFS over the real setter API to a fixpoint, lockstep with a documentation model; plus all "
             "setter sequences up to depth 3/4 and all two-instance interleavings up to depth 2/3, exhaustively",
